@@ -102,3 +102,25 @@ Example external_injection_refused :
   | None => False
   end.
 Proof. vm_compute. repeat split; reflexivity. Qed.
+
+(** C13-onehop-unchecked: a one-hop path is forwarded over a link that is DOWN, with a
+    forged first hop field, after its expiry -- and delivered; the reference router refuses
+    each (link down 8, MAC 4, lifetime 3) *)
+Definition sc_topo_down : topology cmac_key :=
+  mkTopo (t_ases sc_topo)
+         [mkLink 1 1 SParent 2 1 true; mkLink 2 2 SParent 3 1 false; mkLink 2 3 SParent 4 1 true].
+Definition oh_packet (m_xor now_ts : N) : ohpacket :=
+  let m := hop_mac (kk 2) 777 now_ts 63 0 2 in
+  mkOh 3 (mkInfo false true 777 now_ts) (mkHop false false 63 0 2 (N.lxor m m_xor)) (mkHop false false 0 0 0 0).
+Lemma onehop_unchecked_refuted :
+  (* link down *)
+  (map (fun s => (s_ia s, s_act s)) (fst (sdk_onehop_sim hop_mac 3 sc_topo_down 2 0 (oh_packet 0 1000)))
+     = [(2, AFwd 2); (3, ALocal)]
+   /\ ref_onehop hop_mac sc_topo_down 1100 2 (oh_packet 0 1000) = RRejected 2 8)
+  (* forged MAC *)
+  /\ (map (fun s => (s_ia s, s_act s)) (fst (sdk_onehop_sim hop_mac 3 sc_topo 2 0 (oh_packet 4096 1000)))
+       = [(2, AFwd 2); (3, ALocal)]
+      /\ ref_onehop hop_mac sc_topo 1100 2 (oh_packet 4096 1000) = RRejected 2 4)
+  (* expired *)
+  /\ ref_onehop hop_mac sc_topo 900000 2 (oh_packet 0 1000) = RRejected 2 3.
+Proof. vm_compute. repeat split; reflexivity. Qed.
